@@ -104,8 +104,12 @@ def exc_name(exc: BaseException) -> str:
     return type(exc).__name__
 
 
-def build_request(rid: str, body: int = 0, close: bool = False) -> bytes:
+def build_request(rid: str, body: int = 0, close: bool = False, upgrade: str = "") -> bytes:
     head = "GET /%s HTTP/1.1\r\nhost: verif\r\nx-rid: %s\r\n" % (rid, rid)
+    if upgrade == "h2c":
+        # RFC 7540 3.2: the request becomes HTTP/2 stream 1 (the client side of this harness does not speak
+        # HTTP/2: what comes back on such a connection is not parsed)
+        head += "connection: Upgrade, HTTP2-Settings\r\nupgrade: h2c\r\nhttp2-settings: AAMAAABkAAQAAP__\r\n"
     if body:
         head += "content-length: %d\r\n" % body
     if close:
@@ -537,7 +541,9 @@ class WorkerRun:
             data = cl.pending.pop(rid, b"")
             complete = True
         else:
-            full = build_request(rid, int(st.get("body", 0)), bool(st.get("close", False)))
+            full = build_request(rid, int(st.get("body", 0)), bool(st.get("close", False)), str(st.get("upgrade", "")))
+            if st.get("upgrade"):
+                cl.raw = True
             if part == "first":
                 cut = int(st.get("cut", 0)) or (len(full) // 2)
                 cut = max(1, min(cut, len(full) - 1))
@@ -586,8 +592,9 @@ class WorkerRun:
     def _server_closed(self, cl: Client, how: str) -> None:
         if cl.closed:
             return
-        for ev in cl.parser.eof():
-            self._parser_event(cl, ev)
+        if not getattr(cl, "raw", False):
+            for ev in cl.parser.eof():
+                self._parser_event(cl, ev)
         self._flush_partial(cl)
         cl.closed = True
         try:
@@ -635,6 +642,8 @@ class WorkerRun:
                     progress = True
                     break
                 progress = True
+                if getattr(cl, "raw", False):
+                    continue
                 for ev in cl.parser.feed(data):
                     self._parser_event(cl, ev)
         return progress
